@@ -161,6 +161,13 @@ class Case:
             "None" if self.gens is None else "(Some %s)" % glist("(%s, %s)" % (g_name(n), gz(g)) for n, g in self.gens),
             gz(self.ns), gz(self.ts), gopt(gz, self.pw)])
 
+    def dump(self, i):
+        """yaml.dump of document i exactly as create_backup_archive does it (memoised)."""
+        c = self.__dict__.setdefault("_dumps", {})
+        if i not in c:
+            c[i] = yaml.dump(self.docs[i], default_flow_style=False).encode()
+        return c[i]
+
     def doc_id(self, value):
         for i, v in self.docs.items():
             if v == value and type(v) is type(value):
@@ -211,8 +218,8 @@ def mktar(members):
 # ---- abstraction real bytes -> blob ---------------------------------------------------------
 def abstract(case, content):
     """Symbolic blob (as nested tuple) denoted by real content, by exact comparison/decoding."""
-    for i, v in case.docs.items():
-        if content == yaml.dump(v, default_flow_style=False).encode():
+    for i in case.docs:
+        if content == case.dump(i):
             return ("yaml", i)
     try:
         j = json.loads(content)
@@ -235,7 +242,7 @@ def abstract(case, content):
 def concretise(case, blob):
     k = blob[0]
     if k == "yaml":
-        return yaml.dump(case.docs[blob[1]], default_flow_style=False).encode()
+        return case.dump(blob[1])
     if k == "manifest":
         return json.dumps({"version": blob[1], "timestamp": TS[blob[2]], "namespace": NS[blob[3]],
                            "deployment_count": blob[4], "encrypted": blob[5]}, indent=2).encode()
@@ -311,6 +318,34 @@ def real_read(case, data, pw):
         out += enc_str(e.name) + [case.doc_id(e.cr)] + enc_opt(None if e.secret is None else case.doc_id(e.secret)) \
             + enc_opt(e.generation)
     return out, r
+
+
+HMOD = 2147483629
+
+
+def zhash(full, acc=7):
+    for x in full:
+        acc = (acc * 1000003 + x + 17) % HMOD
+    return acc
+
+
+def compact(full):
+    """First two numbers exactly + 31-bit hash of the complete encoding (Model/Archive.v `compact`)."""
+    return list(full[:2]) + [zhash(full)]
+
+
+def g_reads(reads):
+    return glist("(%s, %s)" % (gopt(gz, p), glist(gz(z) for z in compact(e))) for p, e in reads)
+
+
+def archive_expr(case, members, reads):
+    """One Z-valued term per real archive: 0 = the model's create yields these members and every
+    (password, result) read agrees; 1 = create differs; 2+k = read k differs."""
+    return "archive_check %s %s %s" % (case.g_args(), g_members(members), g_reads(reads))
+
+
+def members_expr(members, reads):
+    return "members_check %s %s" % (g_members(members), g_reads(reads))
 
 
 def create_expr(case, members):
